@@ -5,7 +5,12 @@ from androguard's parser.
 
 Model (plain JSON-able data, so a document is its own replay witness):
 
-    doc  = {"utf8": bool, "resmap": bool, "root": elem, ["autoidx": bool]}
+    doc  = {"utf8": bool, "resmap": bool, "root": elem, ["autoidx": bool], ["poolorder": ...],
+            ["attrstart": 20|24|..], ["attrsize": 20|24|..], ["attrfill": byte]}
+            attrstart = ResXMLTree_attrExt.attributeStart (offset of the first attribute from the start of the attrExt;
+            > 20 leaves padding after the 20-byte attrExt), attrsize = attributeSize (stride of the attribute array;
+            > 20 leaves trailing bytes after each 20-byte ResXMLTree_attribute), attrfill = value of those extra bytes.
+            Readers must locate attribute i at attrExt + attributeStart + i * attributeSize.
     elem = {"ns": uri|None, "name": str, "decl": [[prefix, uri], ...], "attrs": [attr, ...], "kids": [elem|text, ...]}
     attr = {"ns": uri|None, "name": str, "t": type code, "d": 32-bit data, ["s": str (string types)], ["rid": int|None]}
     text = {"text": str}
@@ -170,6 +175,11 @@ def _build(doc, preset):
                     resids.append(rid)
     events = []
     line = [1]
+    layout = (doc.get("attrstart") or 0x14, doc.get("attrsize") or 0x14, doc.get("attrfill") or 0)
+    if layout[0] < 0x14 or layout[1] < 0x14 or layout[0] % 4 or layout[1] % 4 or not 0 <= layout[2] <= 255:
+        raise ValueError("attribute layout %r" % (layout,))
+    if layout[:2] == (0x14, 0x14):
+        layout = (0x14, 0x14, 0)
 
     def ref(s):
         return NO_INDEX if s is None else pool.add(s)
@@ -198,7 +208,10 @@ def _build(doc, preset):
                     idx[1] = n + 1
                 if a["name"] == "style" and a.get("ns") is None and not idx[2]:
                     idx[2] = n + 1
-        events.append(("el+", ln, NO_INDEX, ref(e.get("ns")), pool.add(e["name"]), attrs, idx[0], idx[1], idx[2]))
+        ev = ("el+", ln, NO_INDEX, ref(e.get("ns")), pool.add(e["name"]), attrs, idx[0], idx[1], idx[2])
+        if layout != (0x14, 0x14, 0):
+            ev += (layout,)
+        events.append(ev)
         for k in e.get("kids", ()):
             if "text" in k:
                 line[0] += 1
@@ -237,10 +250,12 @@ def serialize(raw, share_duplicates=False):
         elif k == "ns-":
             body += _node(RES_XML_END_NAMESPACE_TYPE, ev[1], ev[2], struct.pack("<II", ev[3], ev[4]))
         elif k == "el+":
-            _, ln, cm, ns, name, attrs, idi, cli, sti = ev
-            ext = struct.pack("<IIHHHHHH", ns, name, 0x14, 0x14, len(attrs), idi, cli, sti)
+            _, ln, cm, ns, name, attrs, idi, cli, sti = ev[:9]
+            astart, asize, fill = ev[9] if len(ev) > 9 else (0x14, 0x14, 0)
+            ext = struct.pack("<IIHHHHHH", ns, name, astart, asize, len(attrs), idi, cli, sti)
+            ext += bytes([fill]) * (astart - 0x14)
             for ans, aname, araw, t, d in attrs:
-                ext += struct.pack("<IIIHBBI", ans, aname, araw, 8, 0, t, d)
+                ext += struct.pack("<IIIHBBI", ans, aname, araw, 8, 0, t, d) + bytes([fill]) * (asize - 0x14)
             body += _node(RES_XML_START_ELEMENT_TYPE, ln, cm, ext)
         elif k == "el-":
             body += _node(RES_XML_END_ELEMENT_TYPE, ev[1], ev[2], struct.pack("<II", ev[3], ev[4]))
@@ -372,13 +387,19 @@ def parse(buf):
             ns, name, astart, asize, acount, idi, cli, sti = struct.unpack_from("<IIHHHHHH", buf, p)
             sref(ns, "element ns")
             sref(name, "element name", optional=False)
-            _need(astart == 0x14 and asize == 0x14, "attributeStart/Size %d/%d" % (astart, asize))
-            _need(sz == 0x24 + 0x14 * acount, "start element size %d for %d attributes" % (sz, acount))
+            _need(astart >= 0x14 and asize >= 0x14 and astart % 4 == 0 and asize % 4 == 0,
+                  "attributeStart/Size %d/%d" % (astart, asize))
+            _need(sz == 0x10 + astart + asize * acount, "start element size %d for %d attributes" % (sz, acount))
+            extra = buf[p + 0x14:p + astart]
+            for i in range(acount):
+                extra += buf[p + astart + asize * i + 0x14:p + astart + asize * (i + 1)]
+            fill = extra[0] if extra else 0
+            _need(all(b == fill for b in extra), "non-uniform filler bytes in the attribute area")
             _need(max(idi, cli, sti) <= acount, "id/class/style index beyond the attributes")
             _need(not (seen_root and depth == 0), "second root element")
             attrs = []
             for i in range(acount):
-                ans, aname, araw, vsz, res0, vt, vd = struct.unpack_from("<IIIHBBI", buf, p + 0x14 + 0x14 * i)
+                ans, aname, araw, vsz, res0, vt, vd = struct.unpack_from("<IIIHBBI", buf, p + astart + asize * i)
                 sref(ans, "attribute ns")
                 sref(aname, "attribute name", optional=False)
                 sref(araw, "attribute raw value")
@@ -386,7 +407,10 @@ def parse(buf):
                 if vt == TYPE_STRING:
                     sref(vd, "string value", optional=False)
                 attrs.append((ans, aname, araw, vt, vd))
-            raw["events"].append(("el+", line, comment, ns, name, attrs, idi, cli, sti))
+            ev = ("el+", line, comment, ns, name, attrs, idi, cli, sti)
+            if (astart, asize) != (0x14, 0x14):
+                ev += ((astart, asize, fill),)
+            raw["events"].append(ev)
             elstack.append((ns, name))
             depth += 1
             seen_root = True
@@ -425,12 +449,14 @@ def to_doc(raw):
     stack = []
     pending = []
     root = None
+    layouts = []
     for ev in raw["events"]:
         k = ev[0]
         if k == "ns+":
             pending.append([S[ev[3]] if ev[3] != NO_INDEX else "", S[ev[4]]])
         elif k == "el+":
-            _, ln, cm, ns, name, attrs, idi, cli, sti = ev
+            _, ln, cm, ns, name, attrs, idi, cli, sti = ev[:9]
+            layouts.append(ev[9] if len(ev) > 9 else (0x14, 0x14, 0))
             e = {"ns": s(ns), "name": S[name], "decl": pending, "attrs": [], "kids": []}
             pending = []
             for ans, aname, araw, t, d in attrs:
@@ -450,7 +476,17 @@ def to_doc(raw):
             stack.pop()
         elif k == "cdata":
             stack[-1]["kids"].append({"text": S[ev[3]]})
-    return {"utf8": raw["utf8"], "resmap": bool(raw["resids"]), "root": root}
+    doc = {"utf8": raw["utf8"], "resmap": bool(raw["resids"]), "root": root}
+    if any(l[:2] != (0x14, 0x14) for l in layouts):
+        _need(len(set(l[:2] for l in layouts)) == 1, "elements with different attribute layouts")
+        if layouts[0][0] != 0x14:
+            doc["attrstart"] = layouts[0][0]
+        if layouts[0][1] != 0x14:
+            doc["attrsize"] = layouts[0][1]
+        fills = [l[2] for l in layouts if l[2]]
+        if fills:
+            doc["attrfill"] = fills[0]
+    return doc
 
 
 def normalise(doc):
@@ -471,7 +507,16 @@ def normalise(doc):
             out["kids"].append({"text": k["text"]} if "text" in k else ne(k))
         return out
     any_rid = use_map and any(a.get("rid") is not None for e in _walk(doc["root"]) for a in e.get("attrs", ()))
-    return {"utf8": bool(doc.get("utf8")), "resmap": any_rid, "root": ne(doc["root"])}
+    out = {"utf8": bool(doc.get("utf8")), "resmap": any_rid, "root": ne(doc["root"])}
+    astart, asize, fill = doc.get("attrstart") or 0x14, doc.get("attrsize") or 0x14, doc.get("attrfill") or 0
+    if astart != 0x14:
+        out["attrstart"] = astart
+    if asize != 0x14:
+        out["attrsize"] = asize
+    has_filler = astart != 0x14 or (asize != 0x14 and any(e.get("attrs") for e in _walk(doc["root"])))
+    if fill and has_filler:
+        out["attrfill"] = fill
+    return out
 
 
 # ------------------------------------------------------------------------------------------------ lxml bridge
